@@ -37,7 +37,8 @@ func cmdM3(args []string) error {
 	cancel := fs.String("cancel", "safe", "cancellation: none, safe (only after the requests were sent), any")
 	fs.Parse(args)
 	alphabet := progAlphabets[*alpha]
-	if alphabet == nil {
+	all := *alpha == "all"
+	if alphabet == nil && !all {
 		return fmt.Errorf("unknown alphabet %q", *alpha)
 	}
 	w, err := vtrace.NewWriter(*out)
@@ -121,7 +122,7 @@ func cmdM3(args []string) error {
 		w.WriteRaw(map[string]interface{}{"ev": "Prog", "t": run, "tok": 0, "node": 0, "msg": 0, "sendbuf": sendbuf,
 			"prog": map[string]interface{}{"m3": true, "seed": *seed, "run": run, "goroutines": *gor, "calls": *ncalls, "cancel": *cancel}})
 		for _, e := range tr.Events(0) {
-			if alphabet[e.Ev] {
+			if all || alphabet[e.Ev] {
 				if e.Ev == "Route" {
 					for _, k := range []string{"err", "empty"} {
 						if _, ok := e.F[k]; !ok {
